@@ -291,6 +291,7 @@ aim, flashlight, the rhythm evaluator and the section bookkeeping only call `pre
 evaluator reads the length of the list or iterates it. -/
 theorem osu_lookahead_as_modelled : modeAhead "osu" = osuAhead := by decide
 
+set_option maxRecDepth 8192 in
 /-- taiko: unbounded (colour / rhythm groups, `next_color_change`, `last_hit_object`, `run_len`). -/
 theorem taiko_lookahead_as_modelled : modeAhead "taiko" = taikoAhead := by decide
 
@@ -331,6 +332,7 @@ theorem truncating_modes_look_backwards_only :
     ∀ s ∈ shapes, s.path = "oneshot" → s.takeBeforeCtor = true → modeAhead s.mode = .bounded 0 := by
   decide
 
+set_option maxRecDepth 8192 in
 /-- …and the modes whose evaluators look ahead build the full list on both paths. -/
 theorem lookahead_modes_build_full_list :
     ∀ s ∈ shapes, modeAhead s.mode ≠ .bounded 0 → s.takeBeforeCtor = false := by decide
